@@ -144,6 +144,7 @@ type Frame struct {
 	edgeGuard  map[[2]int]string
 	loopLimit  map[int]token.Pos
 	heapLocals map[string]Val // named locals that live on the heap (address taken)
+	rangeIt    map[ssa.Value]*mapRange // range-over-map iterators
 }
 
 func (u *Unit) errf(format string, a ...any) {
@@ -967,6 +968,15 @@ func naturalLoop(fn *ssa.Function, h int, isBack map[[2]int]bool) map[int]bool {
 	return body
 }
 
+// mapRange: state of a `for k, v := range m` loop.  The ghost set of visited keys is an
+// integer version v with membership predicate (rangeVisited_<K> v k).
+type mapRange struct {
+	m    Val
+	mt   *types.Map
+	cell *cellKey // holds the current version
+	pred string
+}
+
 // havocLoop replaces everything the loop body may modify by fresh values.
 func (u *Unit) havocLoop(f *Frame, st *State, fn *ssa.Function, body map[int]bool, apply bool) []string {
 	cells := map[*cellKey]bool{}
@@ -982,6 +992,10 @@ func (u *Unit) havocLoop(f *Frame, st *State, fn *ssa.Function, body map[int]boo
 			case *ssa.MapUpdate:
 				mt := x.Map.Type().Underlying().(*types.Map)
 				heaps[u.mapHeapName(mt)] = mt
+			case *ssa.Next:
+				if it, ok := f.rangeIt[x.Iter]; ok {
+					cells[it.cell] = true
+				}
 			case *ssa.Alloc:
 				if x.Heap {
 					allocs = true
@@ -1022,6 +1036,17 @@ func (u *Unit) havocLoop(f *Frame, st *State, fn *ssa.Function, body map[int]boo
 	if allHeaps {
 		for k, t := range u.heapTy {
 			heaps[k] = t
+		}
+	}
+	for bi := range body {
+		for _, ins := range fn.Blocks[bi].Instrs {
+			if nx, ok := ins.(*ssa.Next); ok {
+				if it, ok := f.rangeIt[nx.Iter]; ok {
+					if _, w := heaps[u.mapHeapName(it.mt)]; w {
+						u.errf("range over a map that the loop body may modify is not supported")
+					}
+				}
+			}
 		}
 	}
 	if !apply {
@@ -1441,14 +1466,62 @@ func (u *Unit) instr(f *Frame, st *State, ins ssa.Instruction) {
 		f.vals[x] = Val{Ty: x.Type(), Fn: x.Fn.(*ssa.Function), Binds: binds, T: ""}
 	case *ssa.Range:
 		f.vals[x] = Val{Ty: x.Type(), T: "0"}
+		if mt, ok := x.X.Type().Underlying().(*types.Map); ok {
+			u.rangeMapStart(f, st, x, mt)
+			return
+		}
 		u.unsupported(f, st, ins)
 	case *ssa.Next:
+		if it, ok := f.rangeIt[x.Iter]; ok {
+			u.rangeMapNext(f, st, x, it)
+			return
+		}
 		u.unsupported(f, st, ins)
 	case *ssa.Go:
 		u.em.assumes = append(u.em.assumes, "goroutine body not followed: "+x.Common().String())
 	default:
 		u.unsupported(f, st, ins)
 	}
+}
+
+// rangeMapStart: `range m` over a map starts with an empty set of visited keys.
+func (u *Unit) rangeMapStart(f *Frame, st *State, x *ssa.Range, mt *types.Map) {
+	ks := u.em.sortOf(mt.Key())
+	pred := "rangeVisited_" + sanitize(ks)
+	u.em.pre(fmt.Sprintf("(declare-fun %s (Int %s) Bool)", pred, ks))
+	c := u.newCell("rangevisited", types.Typ[types.Int])
+	v0 := u.em.fresh("visited", "Int")
+	u.em.assert(fmt.Sprintf("(forall ((k %s)) (! (not (%s %s k)) :pattern ((%s %s k))))", ks, pred, v0, pred, v0))
+	st.cells[c] = v0
+	if f.rangeIt == nil {
+		f.rangeIt = map[ssa.Value]*mapRange{}
+	}
+	f.rangeIt[x] = &mapRange{m: u.value(f, st, x.X), mt: mt, cell: c, pred: pred}
+	u.em.assumes = append(u.em.assumes, "range over a map visits every key present exactly once (the map is not modified by the loop: checked)")
+}
+
+// rangeMapNext: one step of a range-over-map loop.  Either some not yet visited key of the
+// map is delivered (with its value) and joins the visited set, or all keys have been visited.
+func (u *Unit) rangeMapNext(f *Frame, st *State, x *ssa.Next, it *mapRange) {
+	ks := u.em.sortOf(it.mt.Key())
+	d, vv := u.mapGet(st, it.mt)
+	cur := st.cells[it.cell]
+	m := it.m.T
+	inDom := func(k string) string {
+		return fmt.Sprintf("(and (not (= %s 0)) (select (select %s %s) %s))", m, d, m, k)
+	}
+	// the visited set only ever holds keys of the map (inductive by construction)
+	u.assume(st, fmt.Sprintf("(forall ((k %s)) (! (=> (%s %s k) %s) :pattern ((%s %s k))))", ks, it.pred, cur, inDom("k"), it.pred, cur))
+	ok := u.em.fresh("rangeok", "Bool")
+	k := u.em.fresh("rangekey", ks)
+	u.assume(st, u.valInv(k, it.mt.Key(), st))
+	val := u.em.define("rangeval", u.em.sortOf(it.mt.Elem()), fmt.Sprintf("(select (select %s %s) %s)", vv, m, k))
+	u.assume(st, fmt.Sprintf("(=> %s (and %s (not (%s %s %s))))", ok, inDom(k), it.pred, cur, k))
+	u.assume(st, fmt.Sprintf("(=> (not %s) (forall ((k %s)) (! (=> %s (%s %s k)) :pattern ((%s %s k)) :pattern ((select (select %s %s) k)))))", ok, ks, inDom("k"), it.pred, cur, it.pred, cur, d, m))
+	nv := u.em.fresh("visited", "Int")
+	u.assume(st, fmt.Sprintf("(forall ((k %s)) (! (= (%s %s k) (or (%s %s k) (and %s (= k %s)))) :pattern ((%s %s k))))", ks, it.pred, nv, it.pred, cur, ok, k, it.pred, nv))
+	st.cells[it.cell] = nv
+	f.vals[x] = Val{Ty: x.Type(), Tuple: []Val{{T: ok, Ty: types.Typ[types.Bool]}, {T: k, Ty: it.mt.Key()}, {T: val, Ty: it.mt.Elem()}}}
 }
 
 func (u *Unit) unsupported(f *Frame, st *State, ins ssa.Instruction) {
